@@ -157,7 +157,7 @@ DFn(f, u) == CASE f = "exp" -> Fn("exp", u)
                [] f = "tan" -> Inv(Mul(Fn("cos", u), Fn("cos", u)))
                [] f = "sinh" -> Fn("cosh", u)
                [] f = "cosh" -> Fn("sinh", u)
-               [] f = "tanh" -> Sub(One, Mul(Fn("tanh", u), Fn("tanh", u)))
+               [] f = "tanh" -> Inv(Mul(Fn("cosh", u), Fn("cosh", u)))   \* = 1 - tanh^2, in the form that keeps its relative accuracy where tanh saturates
                [] f = "sqrt" -> Inv(Mul(Two, Fn("sqrt", u)))
 
 RECURSIVE Diff(_, _)
